@@ -276,7 +276,19 @@ pub(crate) fn solve_expression(
                                         Value::Int(0)
                                     }
                                 }
-                                Value::Float(x) => Value::Int(x.round() as i64),
+                                Value::Float(x) => {
+                                    let r = x.round();
+                                    // NOTE: i64::MIN is exactly representable, i64::MAX is not
+                                    if r >= i64::MIN as f64 && r < i64::MAX as f64 {
+                                        Value::Int(r as i64)
+                                    } else {
+                                        debug!(
+                                            "evaluating false, could not cast left hand side for {} - {}",
+                                            expression, x
+                                        );
+                                        return SolverResult::False;
+                                    }
+                                }
                                 Value::Int(x) => Value::Int(x),
                                 Value::String(x) => match x.parse::<i64>() {
                                     Ok(i) => Value::Int(i),
@@ -419,7 +431,19 @@ pub(crate) fn solve_expression(
                                         Value::Int(0)
                                     }
                                 }
-                                Value::Float(x) => Value::Int(x.round() as i64),
+                                Value::Float(x) => {
+                                    let r = x.round();
+                                    // NOTE: i64::MIN is exactly representable, i64::MAX is not
+                                    if r >= i64::MIN as f64 && r < i64::MAX as f64 {
+                                        Value::Int(r as i64)
+                                    } else {
+                                        debug!(
+                                            "evaluating false, could not cast right hand side for {} - {}",
+                                            expression, x
+                                        );
+                                        return SolverResult::False;
+                                    }
+                                }
                                 Value::Int(x) => Value::Int(x),
                                 Value::String(x) => match x.parse::<i64>() {
                                     Ok(i) => Value::Int(i),
